@@ -3991,6 +3991,13 @@ class SFTPClient:
                     if filename in (b'.', b'..'):
                         continue
 
+                    # Never let a name from a directory listing point
+                    # outside of the directory being copied
+                    if b'/' in filename or \
+                            (sys.platform == 'win32' and b'\\' in filename):
+                        raise SFTPBadMessage('Invalid filename in '
+                                             'directory listing')
+
                     srcfile = posixpath.join(srcpath, filename)
                     dstfile = posixpath.join(dstpath, filename)
 
